@@ -77,6 +77,33 @@ pub fn run(ctx: &mut Ctx) {
         ctx.count("full_params_checked");
     });
 
+    // corner enumeration: every combination of empty / one-byte fields, limit 0 / 1,
+    // extension space empty / one empty entry / one non-empty entry (2^4 * 2 * 3 = 96 sets)
+    ctx.phase("corners", 96, |ctx, k| {
+        let bit = |i: u64| (k >> i) & 1 == 1;
+        let b = |on: bool| if on { vec![0x51u8] } else { vec![] };
+        let ext = match (k >> 5) % 3 {
+            0 => vec![],
+            1 => vec![vec![]],
+            _ => vec![vec![2u8; 33]],
+        };
+        let full = elements::dynafed::FullParams::new(
+            elements::Script::from(b(bit(0))),
+            bit(1) as u32,
+            elements::bitcoin::ScriptBuf::from_bytes(b(bit(2))),
+            b(bit(3)),
+            ext,
+        );
+        ctx.eval();
+        let rfull = ser::rparams(&Params::Full(full.clone()));
+        let want = ref_root(&rfull);
+        let d = || json!({"params": format!("{:?}", full)});
+        ctx.check(full.calculate_root().to_byte_array() == want, "full-root!=reference/corner", || json!({"expected": hex(&want), "observed": hex(&full.calculate_root().to_byte_array()), "in": d()}));
+        ctx.check(Params::Full(full.clone()).calculate_root().to_byte_array() == want, "params-full-root!=reference/corner", d);
+        ctx.check(full.clone().into_compact().calculate_root().to_byte_array() == want, "compact-root!=full-root/corner", d);
+        ctx.shape(("corner", k));
+    });
+
     let hn = ctx.budget(6_000, 100_000);
     ctx.phase("headers", hn, |ctx, k| {
         // all 3x3 current/proposed variant combinations, cycling
